@@ -7,6 +7,8 @@ CONSTANTS
   Pausables = {"pdet"}
   Flyers = {}
   AsyncDevs = {}
+  FlyStream <- FlyStreamDef
+  FlyN <- FlyNDef
   Suspenders <- XSus
   SigOf <- SigOfDef
   SusFuts <- SusFutsDef
